@@ -1,12 +1,14 @@
 #!/bin/bash
-# try_seed.sh <patch.diff> <property id>... : apply a seeded change to /repo, run the quick checks, undo it.
+# try_seed.sh <patch.diff> <property id>... : apply a seeded change to the repository, run the quick
+# checks, undo it. VERIF_DIR / VERIF_REPO select a scratch pair (default: /verif and /repo).
 P=$1; shift
-cd /repo || exit 3
-if [ -n "$(git status --porcelain)" ]; then echo "/repo not clean"; exit 3; fi
+VD=${VERIF_DIR:-/verif}; RP=${VERIF_REPO:-/repo}
+cd $RP || exit 3
+if [ -n "$(git status --porcelain)" ]; then echo "$RP not clean"; exit 3; fi
 git apply --3way "$P" 2>/dev/null || git apply "$P" || { echo "patch does not apply"; exit 3; }
 git reset -q 2>/dev/null
-trap 'cd /repo && git checkout -q -- . && git clean -fdq x app ante types cmd 2>/dev/null' EXIT
+trap 'cd $RP && git checkout -q -- . && git clean -fdq x app ante types cmd 2>/dev/null' EXIT
 for id in "$@"; do
-  (cd /verif && VERIF_DIR=/verif ./scripts/check.sh $id ${TIER:-quick} 2>&1 | cut -c1-400 | tail -${LINES_OUT:-6})
+  (cd $VD && VERIF_DIR=$VD VERIF_REPO=$RP ./scripts/check.sh $id ${TIER:-quick} 2>&1 | cut -c1-400 | tail -${LINES_OUT:-6})
   echo "== $id rc=${PIPESTATUS[0]}"
 done
